@@ -156,5 +156,120 @@ instance : Raises E hexColor := by unfold hexColor; prim_tac
 instance : Raises E comment := by unfold comment; prim_tac
 instance : Raises E white := by unfold white; prim_tac
 
+/-! ### postconditions -/
+
+/-- every successful result of `p` satisfies `Q` -/
+def Post {α : Type} (p : P α) (Q : α → Prop) : Prop := ∀ c a c', p c = .ok a c' → Q a
+
+theorem post_true (p : P α) : Post p (fun _ => True) := fun _ _ _ _ => trivial
+
+theorem post_weaken {p : P α} {Q R : α → Prop} (h : Post p Q) (hq : ∀ a, Q a → R a) : Post p R :=
+  fun c a c' hp => hq a (h c a c' hp)
+
+theorem post_pure {Q : α → Prop} (a : α) (h : Q a) : Post (pure a : P α) Q := by
+  intro c b c' hp
+  simp only [pure, ppure, Res.ok.injEq] at hp
+  rw [← hp.1]; exact h
+
+theorem post_pexn {Q : α → Prop} (e : PErr) : Post (pexn e : P α) Q := by
+  intro c b c' hp; cases hp
+
+theorem post_pfail {Q : α → Prop} : Post (pfail : P α) Q := by
+  intro c b c' hp; cases hp
+
+theorem post_bind {p : P α} {f : α → P β} {R : α → Prop} {Q : β → Prop}
+    (hp : Post p R) (hf : ∀ a, R a → Post (f a) Q) : Post (p >>= f) Q := by
+  intro c b c' h
+  simp only [bind, pbind] at h
+  cases hpc : p c with
+  | ok a c1 => rw [hpc] at h; exact hf a (hp _ _ _ hpc) _ _ _ h
+  | fail => rw [hpc] at h; cases h
+  | fatal => rw [hpc] at h; cases h
+  | exn e => rw [hpc] at h; cases h
+
+theorem post_bind' {p : P α} {f : α → P β} {Q : β → Prop} (hf : ∀ a, Post (f a) Q) : Post (p >>= f) Q :=
+  post_bind (post_true p) (fun a _ => hf a)
+
+theorem post_alt {p q : P α} {Q : α → Prop} (hp : Post p Q) (hq : Post q Q) : Post (alt p q) Q := by
+  intro c b c' h
+  simp only [alt] at h
+  cases hpc : p c with
+  | ok a c1 => rw [hpc] at h; simp only [Res.ok.injEq] at h; rw [← h.1]; exact hp _ _ _ hpc
+  | fail => rw [hpc] at h; exact hq _ _ _ h
+  | fatal => rw [hpc] at h; cases h
+  | exn e => rw [hpc] at h; cases h
+
+theorem post_cut {p : P α} {Q : α → Prop} (hp : Post p Q) : Post (cut p) Q := by
+  intro c b c' h
+  simp only [cut] at h
+  cases hpc : p c with
+  | ok a c1 => rw [hpc] at h; simp only [Res.ok.injEq] at h; rw [← h.1]; exact hp _ _ _ hpc
+  | fail => rw [hpc] at h; cases h
+  | fatal => rw [hpc] at h; cases h
+  | exn e => rw [hpc] at h; cases h
+
+theorem post_opt {p : P α} {Q : α → Prop} (hp : Post p Q) : Post (opt p) (fun o => ∀ a, o = some a → Q a) := by
+  intro c b c' h
+  simp only [opt] at h
+  cases hpc : p c with
+  | ok a c1 =>
+    rw [hpc] at h; simp only [Res.ok.injEq] at h
+    intro x hx; rw [← h.1] at hx; cases hx; exact hp _ _ _ hpc
+  | fail => rw [hpc] at h; simp only [Res.ok.injEq] at h; intro x hx; rw [← h.1] at hx; cases hx
+  | fatal => rw [hpc] at h; cases h
+  | exn e => rw [hpc] at h; cases h
+
+theorem post_many {p : P α} {Q : α → Prop} (hp : Post p Q) (n : Nat) :
+    Post (many p n) (fun l => ∀ a ∈ l, Q a) := by
+  induction n with
+  | zero =>
+    intro c b c' h
+    simp only [many, Res.ok.injEq] at h
+    rw [← h.1]; simp
+  | succ n ih =>
+    intro c b c' h
+    simp only [many] at h
+    cases hpc : p c with
+    | ok a c1 =>
+      rw [hpc] at h
+      simp only at h
+      have ha := hp _ _ _ hpc
+      split at h
+      · simp only [Res.ok.injEq] at h; rw [← h.1]; simpa using ha
+      · cases hm : many p n c1 with
+        | ok as c2 =>
+          rw [hm] at h; simp only [Res.ok.injEq] at h; rw [← h.1]
+          intro x hx
+          rcases List.mem_cons.mp hx with rfl | hx
+          · exact ha
+          · exact ih _ _ _ hm x hx
+        | fail => rw [hm] at h; simp only [Res.ok.injEq] at h; rw [← h.1]; simpa using ha
+        | fatal => rw [hm] at h; cases h
+        | exn e => rw [hm] at h; cases h
+    | fail => rw [hpc] at h; simp only [Res.ok.injEq] at h; rw [← h.1]; simp
+    | fatal => rw [hpc] at h; cases h
+    | exn e => rw [hpc] at h; cases h
+
+theorem post_manyF {p : P α} {Q : α → Prop} (hp : Post p Q) : Post (manyF p) (fun l => ∀ a ∈ l, Q a) :=
+  fun c b c' h => post_many hp (fuelOf c) c b c' h
+
+theorem post_many1 {p : P α} {Q : α → Prop} (hp : Post p Q) :
+    Post (many1 p) (fun l => l ≠ [] ∧ ∀ a ∈ l, Q a) := by
+  unfold many1
+  refine post_bind hp (fun a ha => post_bind (post_manyF hp) (fun as has => post_pure _ ⟨by simp, ?_⟩))
+  intro x hx
+  rcases List.mem_cons.mp hx with rfl | hx
+  · exact ha
+  · exact has x hx
+
+theorem post_orLongest {p q : P α} {Q : α → Prop} (hp : Post p Q) (hq : Post q Q) : Post (orLongest p q) Q := by
+  intro c b c' h
+  simp only [orLongest] at h
+  cases hpc : p c <;> cases hqc : q c <;> rw [hpc, hqc] at h <;> simp only at h <;>
+    first
+    | (simp only [Res.ok.injEq] at h; rw [← h.1]; first | exact hp _ _ _ hpc | exact hq _ _ _ hqc)
+    | (split at h <;> simp only [Res.ok.injEq] at h <;> rw [← h.1] <;> first | exact hp _ _ _ hpc | exact hq _ _ _ hqc)
+    | cases h
+
 end Hoare
 end PyDBML
